@@ -2246,6 +2246,7 @@ func (p *Parser) parseParenthesizedExpression(prec OpPrec, async []byte) IExpr {
 	// parse an Arguments expression but assume we might be parsing an (async) arrow function or ParenthesisedExpression. If this is really an arrow function, parsing as an Arguments expression cannot fail as AssignmentExpression, ArrayLiteral, and ObjectLiteral are supersets of SingleNameBinding, ArrayBindingPattern, and ObjectBindingPattern respectively. Any identifier that would be a BindingIdentifier in case of an arrow function, will be added as such to the scope. If finally this is not an arrow function, we will demote those variables as undeclared and merge them with the parent scope.
 
 	rests := 0
+	trailingComma := false // allowed in arrow parameters and call arguments only
 	var args Args
 	for p.tt != CloseParenToken && p.tt != ErrorToken {
 		if 0 < len(args.List) && args.List[len(args.List)-1].Rest {
@@ -2267,6 +2268,7 @@ func (p *Parser) parseParenthesizedExpression(prec OpPrec, async []byte) IExpr {
 			break
 		}
 		p.next()
+		trailingComma = p.tt == CloseParenToken
 	}
 	if p.tt != CloseParenToken {
 		p.fail("expression")
@@ -2301,7 +2303,7 @@ func (p *Parser) parseParenthesizedExpression(prec OpPrec, async []byte) IExpr {
 	} else if !isAsync && (len(args.List) == 0 || hasLastRest) {
 		p.fail("arrow function", ArrowToken)
 		return nil
-	} else if isAsync && OpCall < prec || !isAsync && 0 < rests {
+	} else if isAsync && OpCall < prec || !isAsync && (0 < rests || trailingComma) {
 		p.fail("expression")
 		return nil
 	} else {
